@@ -494,6 +494,16 @@ pub fn gen_cases(profile: &str, seed: u64, b: &Budget) -> Vec<Case> {
                             fixed_max_order: if idx % 3 == 0 { 0 } else { 4 }, partitions: if idx % 2 == 0 { Some(16) } else { None }, ..Cfg::default() };
                 mode = Mode::St;
             }
+            "c01" | "c02" | "c04" | "c05" | "c08" | "c15" if idx % 20 == 13 => {
+                // weakly correlated content under the default predictor: LPC subframes whose coefficients are all
+                // tiny (quantiser shift saturated at its maximum)
+                family = "weakar".to_string();
+                bps = if idx % 40 == 13 { 16 } else { 24 };
+                bs = [1024usize, 2048, 4096][(idx / 20) % 3];
+                cfg = Cfg { block_size: bs, ..Cfg::default() };
+                mode = if idx % 80 == 73 { Mode::Mt(2) } else { Mode::St };
+                wide = Some(1);
+            }
             "c04" => {
                 mode = if idx % 3 == 0 { Mode::Mt(2) } else if idx % 3 == 1 { Mode::St } else { Mode::Mt(1) };
             }
@@ -556,6 +566,8 @@ pub fn gen_cases(profile: &str, seed: u64, b: &Budget) -> Vec<Case> {
             }
         }
         let delivery = if rng.gen_bool(if wide.is_some() { 0.15 } else { 0.3 }) { Delivery::Bytes } else { Delivery::Ints };
+        // a source that mixes both deliveries within one stream (explicit class, independent of the rng stream)
+        let delivery = if idx % 7 == 5 || (wide.is_some() && idx % 3 == 1) { Delivery::Mixed } else { delivery };
         let family = if long { format!("long:{family}") } else { family };
         // the configuration's own block-size field differs from the requested block size in about a third of the cases (moduli coprime to the mode cycle)
         if idx % 5 == 1 || idx % 7 == 3 {
